@@ -974,7 +974,7 @@ rt_prop("C13", ["bridge", "core", "cancel"],
         "every history, when any further call has returned every executor task that hosts a command hosts a LIVE command that is "
         "NOT DONE, and no command is hosted twice — a finished or dropped command never remains in the executor, so its occupancy "
         "by commands is bounded by the commands with outstanding work, whatever the length of the history. Occupancy of all slabs "
-        "is compared with the model after every call through the crux_verif hooks.",
+        "is compared with the model after every call through the crux_verif hooks. RESOURCE USE BOUNDED BY OUTSTANDING WORK over whole runs — stored_tasks_are_charged_to_outstanding_requests (+ charges_are_distinct): for every simpleS task program under the direct host, after EVERY history, every task still in the slab has its own waker registered in a channel whose sender is alive, and a channel holds one waker: the occupancy of the slab never exceeds the number of requests the shell still holds (invariants GInv, LQ, CS of C07, Lemmas/CompleteS.lean).",
         goals=["tasks_released_goal"])
 
 # ---------------------------------------------------------------- conc engine (C08)
